@@ -1,13 +1,16 @@
 (* C18 — the property as Props over (history of rounds, recorded Evict calls) and its decision
-   procedure [prop_code] (0 = holds, otherwise the number of the first failing clause).
+   procedure (0 = holds, otherwise the number of the first failing clause).
 
-   Observable of a round: the Evict calls received by the evictor, in order, as (node, pod).
-   Every call is judged against the usage / threshold table recomputed from the round's
-   inputs ([Model.table]) and against the running estimates obtained by replaying the calls
-   that precede it.
+   Observable of a round (one Balance call): the Evict calls received by the evictor, in order,
+   as (node, pod). A Balance call walks the configured node pools in order; the calls of a round
+   must split into consecutive segments, one per pool (possibly empty), such that every call of
+   a segment is justified by the usage / threshold table of that pool recomputed from the
+   round's inputs ([Model.table_of]) and by the running estimates obtained by replaying the calls
+   that precede it — those of the same pool AND those of the earlier pools of the same Balance
+   call (a node relieved by an earlier pool is judged by what is left of its usage).
 
    clauses
-     1  source not overloaded: the node is not a usable pool node, is not classified
+     1  source not overloaded: the node is not a usable node of the pool, is not classified
         high / prod-high, or its running estimate is not above the high threshold in any
         dimension at the moment of the call
      2  nobody to receive load: no low / both-low node (node pass), no prod-low / both-low
@@ -17,11 +20,14 @@
      5  evictions although no node is overloaded / no node is underused / all are underused
      6  anomaly gate: the node was a source in fewer rounds than ConsecutiveAbnormalities
         requires (counting all earlier rounds)
-     7  (strict reading, see findings) the rounds in which it was a source are not consecutive
+     7  (strict reading) the rounds in which it was a source are not consecutive
      8  Evict called in dry-run mode
      9  malformed observable
     10  NodeFit is on and the pod has no usage metrics or fits no target node even when the
-        reservations made for other pods are ignored *)
+        reservations made for other pods are ignored
+    11  the node is above the pool's high threshold only if the pods already evicted from it by
+        EARLIER pools of the same Balance call are not counted: its estimated usage was already
+        back under the threshold *)
 From Coq Require Import String List ZArith Bool.
 From Verif Require Import C18.Model.
 Import ListNotations.
@@ -76,15 +82,19 @@ Section Round.
 
   Definition init_state (prod : bool) (avail : vec) : ustate := (init_umap prod tbl, avail).
 
-  Definition round_holds (psize : Z) (evs : list ev) : Prop :=
+  (* [um], [pum]: the usage estimates (all pods / prod pods) of the pool's nodes when the pool
+     starts *)
+  Definition round_holds_from (psize : Z) (um pum : umap) (evs : list ev) : Prop :=
     (cdry c = true -> evs = []) /\
     (nothing_cond tbl psize = true -> evs = []) /\
     (forall e, In e evs -> ev_in tbl false e = true \/ ev_in tbl true e = true) /\
     exists stN stP,
-      valid_pass false (init_state false (node_avail (dims c) tbl))
-                 (filter (ev_in tbl false) evs) stN /\
-      valid_pass true (init_state true (prod_avail (dims c) tbl (snd stN)))
-                 (filter (ev_in tbl true) evs) stP.
+      valid_pass false (um, node_avail (dims c) tbl) (filter (ev_in tbl false) evs) stN /\
+      valid_pass true (pum, prod_avail (dims c) tbl (snd stN)) (filter (ev_in tbl true) evs) stP.
+
+  (* ... the measured usage, when no earlier pool of the Balance call has evicted from them *)
+  Definition round_holds (psize : Z) (evs : list ev) : Prop :=
+    round_holds_from psize (init_umap false tbl) (init_umap true tbl) evs.
 
   (* ---------- the decision procedure ---------- *)
   Fixpoint check_pass (prod : bool) (evs : list ev) (st : ustate) : Z * ustate :=
@@ -107,86 +117,181 @@ Section Round.
       end
     end.
 
-  Definition check_round (psize : Z) (evs : list ev) : Z :=
+  Definition check_round_from (psize : Z) (um pum : umap) (evs : list ev) : Z :=
     if cdry c && negb (is_nil evs) then 8
     else if nothing_cond tbl psize && negb (is_nil evs) then 5
     else if negb (forallb (fun e => ev_in tbl false e || ev_in tbl true e) evs) then 1
     else
-      let '(k1, st1) := check_pass false (filter (ev_in tbl false) evs)
-                                   (init_state false (node_avail (dims c) tbl)) in
+      let '(k1, st1) := check_pass false (filter (ev_in tbl false) evs) (um, node_avail (dims c) tbl) in
       if negb (k1 =? 0) then k1
-      else fst (check_pass true (filter (ev_in tbl true) evs)
-                           (init_state true (prod_avail (dims c) tbl (snd st1)))).
+      else fst (check_pass true (filter (ev_in tbl true) evs) (pum, prod_avail (dims c) tbl (snd st1))).
+
+  Definition check_round (psize : Z) (evs : list ev) : Z :=
+    check_round_from psize (init_umap false tbl) (init_umap true tbl) evs.
 End Round.
 
+(* ---------- what the earlier pools of the same Balance call have already evicted ---------- *)
+(* the evictions charged so far in this Balance call: (node, pod), in order *)
+Notation cumT := (list (Z * pod)).
+Definition cum_sel (prod : bool) (x : Z) (e : Z * pod) : bool :=
+  (fst e =? x) && (negb prod || is_prod (snd e)).
+(* usage estimate [u] of node x (all pods / prod pods) less the pods already evicted from it *)
+Definition adj_use (c : cfg) (prod : bool) (cum : cumT) (x : Z) (u : vec) : vec :=
+  fold_left (fun u e => vsub u (pdec c (snd e))) (filter (cum_sel prod x) cum) u.
+Definition adj_umap (c : cfg) (prod : bool) (tbl : list row) (cum : cumT) : umap :=
+  map (fun r => (rid r, adj_use c prod cum (rid r) (r_use prod r))) tbl.
+(* the calls of a segment that did evict a pod with metrics *)
+Definition seg_charged (tbl : list row) (seg : list ev) : cumT :=
+  flat_map (fun e => match find_row (fst e) tbl with
+                     | Some r => match find_pod (snd e) (rall r) with
+                                 | Some p => if pevok p && pmet p then [(fst e, p)] else []
+                                 | None => []
+                                 end
+                     | None => []
+                     end) seg.
+
 (* ---------- anomaly gate over the history ---------- *)
-(* [hist]: tables of the earlier rounds, most recent first *)
+(* [hist]: the pools (node ids, table) of the earlier rounds, most recent round first *)
+Notation stepT := (list Z * list row)%type.
 Definition was_src (prod : bool) (x : Z) (tbl : list row) : bool :=
   match find_row x tbl with Some r => rcls r =? src_cls prod | None => false end.
-Definition count_src (prod : bool) (x : Z) (hist : list (list row)) : Z :=
-  countf (was_src prod x) hist.
-Fixpoint streak_src (prod : bool) (x : Z) (hist : list (list row)) : Z :=
+(* node x was a source (of that kind) in some pool of the round *)
+Definition was_src_r (prod : bool) (x : Z) (R : list stepT) : bool :=
+  existsb (fun s => was_src prod x (snd s)) R.
+(* node x was looked at by some pool of the round *)
+Definition in_round (x : Z) (R : list stepT) : bool := existsb (fun s => memz x (fst s)) R.
+Definition count_src (prod : bool) (x : Z) (hist : list (list stepT)) : Z :=
+  countf (was_src_r prod x) hist.
+(* length of the run of source rounds that ends with the most recent round; a round in which no
+   pool looked at the node at all neither counts nor interrupts *)
+Fixpoint streak_src (prod : bool) (x : Z) (hist : list (list stepT)) : Z :=
   match hist with
   | [] => 0
-  | t :: h => if was_src prod x t then 1 + streak_src prod x h else 0
+  | R :: h => if was_src_r prod x R then 1 + streak_src prod x h
+              else if in_round x R then 0 else streak_src prod x h
   end.
 Definition ev_prod (tbl : list row) (e : ev) : bool := ev_in tbl true e.
 
 (* with ConsecutiveAbnormalities = K (and K <> 1) a node is evicted from only when it has been
    a source in at least K earlier rounds besides the current one *)
-Definition gate_holds (c : cfg) (hist : list (list row)) (tbl : list row) (evs : list ev) : Prop :=
+Definition gate_holds (c : cfg) (hist : list (list stepT)) (tbl : list row) (evs : list ev) : Prop :=
   gating c = true ->
   forall e, In e evs -> cK c <= count_src (ev_prod tbl e) (fst e) hist.
-Definition gate_ok (c : cfg) (hist : list (list row)) (tbl : list row) (evs : list ev) : bool :=
+Definition gate_ok (c : cfg) (hist : list (list stepT)) (tbl : list row) (evs : list ev) : bool :=
   negb (gating c) || forallb (fun e => cK c <=? count_src (ev_prod tbl e) (fst e) hist) evs.
 (* strict reading: ... in the K rounds immediately before the current one *)
-Definition strict_gate_holds (c : cfg) (hist : list (list row)) (tbl : list row) (evs : list ev) : Prop :=
+Definition strict_gate_holds (c : cfg) (hist : list (list stepT)) (tbl : list row) (evs : list ev) : Prop :=
   gating c = true ->
   forall e, In e evs -> cK c <= streak_src (ev_prod tbl e) (fst e) hist.
-Definition strict_gate_ok (c : cfg) (hist : list (list row)) (tbl : list row) (evs : list ev) : bool :=
+Definition strict_gate_ok (c : cfg) (hist : list (list stepT)) (tbl : list row) (evs : list ev) : bool :=
   negb (gating c) || forallb (fun e => cK c <=? streak_src (ev_prod tbl e) (fst e) hist) evs.
 
-(* ---------- whole histories ---------- *)
-(* the usage / threshold table and the pool size of every round, recomputed from the inputs *)
-Definition tables (c : cfg) (ns : list nstat) (rounds : list (list nround)) : list (list row * Z) :=
-  map (fun rs => (table c ns rs, pool_size c ns rs)) rounds.
+(* ---------- one Balance call: the pools in order ---------- *)
+(* the calls [seg] attributed to pool [pt], given what earlier pools evicted ([cum]) *)
+Definition seg_holds (strict : bool) (pt : ptab) (cum : cumT) (hist : list (list stepT)) (seg : list ev) : Prop :=
+  round_holds_from (pt_cfg pt) (pt_tbl pt) (pt_size pt)
+                   (adj_umap (pt_cfg pt) false (pt_tbl pt) cum) (adj_umap (pt_cfg pt) true (pt_tbl pt) cum) seg /\
+  gate_holds (pt_cfg pt) hist (pt_tbl pt) seg /\
+  (strict = true -> strict_gate_holds (pt_cfg pt) hist (pt_tbl pt) seg).
 
-Fixpoint hist_holds (c : cfg) (tbls : list (list row * Z))
-  (obs : list (list ev)) (hist : list (list row)) : Prop :=
+Fixpoint pools_hold (strict : bool) (pts : list ptab) (cum : cumT) (hist : list (list stepT)) (evs : list ev) : Prop :=
+  match pts with
+  | [] => evs = []
+  | pt :: t => exists seg rest,
+      evs = seg ++ rest /\ seg_holds strict pt cum hist seg /\
+      pools_hold strict t (cum ++ seg_charged (pt_tbl pt) seg) hist rest
+  end.
+
+(* first failing clause of a segment; 11 = only the evictions of earlier pools make it fail *)
+Definition seg_code (strict : bool) (pt : ptab) (cum : cumT) (hist : list (list stepT)) (seg : list ev) : Z :=
+  let c := pt_cfg pt in
+  let tbl := pt_tbl pt in
+  let k := check_round_from c tbl (pt_size pt) (adj_umap c false tbl cum) (adj_umap c true tbl cum) seg in
+  if negb (k =? 0) then (if check_round c tbl (pt_size pt) seg =? 0 then 11 else k)
+  else if negb (gate_ok c hist tbl seg) then 6
+  else if strict && negb (strict_gate_ok c hist tbl seg) then 7
+  else 0.
+Definition seg_ok (strict : bool) (pt : ptab) (cum : cumT) (hist : list (list stepT)) (seg : list ev) : bool :=
+  seg_code strict pt cum hist seg =? 0.
+
+(* is there a split of the calls into one segment per pool? *)
+Fixpoint pools_ok (strict : bool) (pts : list ptab) (cum : cumT) (hist : list (list stepT)) (evs : list ev) : bool :=
+  match pts with
+  | [] => is_nil evs
+  | pt :: t =>
+    existsb (fun k => seg_ok strict pt cum hist (firstn k evs) &&
+                      pools_ok strict t (cum ++ seg_charged (pt_tbl pt) (firstn k evs)) hist (skipn k evs))
+            (seq 0 (S (length evs)))
+  end.
+
+(* diagnosis when there is none: every pool takes the longest prefix it accepts; the first call
+   it does not accept is blamed on the LAST pool that classifies the call's node as a source
+   (the current pool, if no later one does), and the clause that pool fails with is reported *)
+Definition src_ev (pt : ptab) (e : ev) : bool := ev_in (pt_tbl pt) false e || ev_in (pt_tbl pt) true e.
+Fixpoint pools_code (pts : list ptab) (cum : cumT) (hist : list (list stepT)) (evs : list ev) : Z :=
+  match pts with
+  | [] => if is_nil evs then 0 else 1
+  | pt :: t =>
+    if is_nil t then seg_code false pt cum hist evs
+    else
+      let k := match find (fun k => seg_ok false pt cum hist (firstn k evs)) (rev (seq 0 (S (length evs)))) with
+               | Some k => k | None => O end in
+      let blame_here := match skipn k evs with
+                        | [] => false
+                        | e :: _ => src_ev pt e && negb (existsb (fun pt' => src_ev pt' e) t)
+                        end in
+      if blame_here then seg_code false pt cum hist (firstn (S k) evs)
+      else pools_code t (cum ++ seg_charged (pt_tbl pt) (firstn k evs)) hist (skipn k evs)
+  end.
+
+(* ---------- whole histories ---------- *)
+Definition steps_of (pts : list ptab) : list stepT := map (fun pt => (pt_ids pt, pt_tbl pt)) pts.
+
+Fixpoint hist_holds (strict : bool) (tbls : list (list ptab))
+  (obs : list (list ev)) (hist : list (list stepT)) : Prop :=
   match tbls, obs with
   | [], [] => True
-  | (tbl, psize) :: rt, evs :: ot =>
-    round_holds c tbl psize evs /\ gate_holds c hist tbl evs /\
-    hist_holds c rt ot (tbl :: hist)
+  | pts :: rt, evs :: ot =>
+    pools_hold strict pts [] hist evs /\ hist_holds strict rt ot (steps_of pts :: hist)
   | _, _ => False
   end.
 
-Fixpoint check_hist (c : cfg) (tbls : list (list row * Z))
-  (obs : list (list ev)) (hist : list (list row)) : Z :=
+Fixpoint hist_ok (strict : bool) (tbls : list (list ptab))
+  (obs : list (list ev)) (hist : list (list stepT)) : bool :=
+  match tbls, obs with
+  | [], [] => true
+  | pts :: rt, evs :: ot =>
+    pools_ok strict pts [] hist evs && hist_ok strict rt ot (steps_of pts :: hist)
+  | _, _ => false
+  end.
+
+Fixpoint hist_code (tbls : list (list ptab)) (obs : list (list ev)) (hist : list (list stepT)) : Z :=
   match tbls, obs with
   | [], [] => 0
-  | (tbl, psize) :: rt, evs :: ot =>
-    let k := check_round c tbl psize evs in
-    if negb (k =? 0) then k
-    else if negb (gate_ok c hist tbl evs) then 6
-    else check_hist c rt ot (tbl :: hist)
+  | pts :: rt, evs :: ot =>
+    if pools_ok false pts [] hist evs then hist_code rt ot (steps_of pts :: hist)
+    else let k := pools_code pts [] hist evs in if k =? 0 then 9 else k
   | _, _ => 9
   end.
 
-Fixpoint check_strict (c : cfg) (tbls : list (list row * Z))
-  (obs : list (list ev)) (hist : list (list row)) : Z :=
-  match tbls, obs with
-  | (tbl, _) :: rt, evs :: ot =>
-    if negb (strict_gate_ok c hist tbl evs) then 7 else check_strict c rt ot (tbl :: hist)
-  | _, _ => 0
-  end.
+(* the pools of every round: configuration, node ids and usage / threshold table, recomputed
+   from the inputs. Which nodes a later pool of a Balance call looks at depends on which earlier
+   pools ran to their end, hence on the detector caches: the tables are read off the run of the
+   model ([fx], [fxp]: the code variant, see Model) *)
+Definition tables (fx fxp : bool) (bc : list cfg) (ns : list nstat) (rounds : list (list nround))
+  : list (list ptab) :=
+  map (fun r => map fst (fst r)) (run_gen fx fxp bc ns rounds ([], [])).
+(* the Evict calls of every round *)
+Definition observed (res : list (list (ptab * list ev) * dstate)) : list (list ev) :=
+  map (fun r => evs_of (fst r)) res.
 
-Definition C18_holds (c : cfg) (ns : list nstat) (rounds : list (list nround)) (obs : list (list ev)) : Prop :=
-  hist_holds c (tables c ns rounds) obs [].
-Definition prop_code (c : cfg) (ns : list nstat) (rounds : list (list nround)) (obs : list (list ev)) : Z :=
-  check_hist c (tables c ns rounds) obs [].
-Definition strict_code (c : cfg) (ns : list nstat) (rounds : list (list nround)) (obs : list (list ev)) : Z :=
-  check_strict c (tables c ns rounds) obs [].
+Definition C18_holds (strict : bool) (tbls : list (list ptab)) (obs : list (list ev)) : Prop :=
+  hist_holds strict tbls obs [].
+(* 0 = holds (strict reading included); 7 = only the strict reading of the gate fails *)
+Definition prop_code (tbls : list (list ptab)) (obs : list (list ev)) : Z :=
+  if hist_ok true tbls obs [] then 0
+  else if hist_ok false tbls obs [] then 7
+  else hist_code tbls obs [].
 
 (* well-formed input: (namespace, name) is unique among the pods of a node, reported usage is
    not negative *)
@@ -196,3 +301,17 @@ Definition wf_nround (r : nround) : bool :=
   nodupb (map pkey (rpods r)) && forallb (fun p => (0 <=? pcpu p) && (0 <=? pmem p)) (rpods r).
 Definition wf_rounds (rounds : list (list nround)) : bool :=
   forallb (forallb wf_nround) rounds.
+
+(* ---------- static facts about the pool list ---------- *)
+(* the pool's selector matches a node with that label (a nil selector matches everything) *)
+Definition static_match (c : cfg) (l : Z) : bool := (csel c =? 0) || sel_match (csel c) l.
+(* no node is matched by two pools *)
+Fixpoint disjoint_pools (bc : list cfg) (ns : list nstat) : bool :=
+  match bc with
+  | [] => true
+  | c :: t =>
+    forallb (fun c' => forallb (fun s => negb (static_match c (nlabel s) && static_match c' (nlabel s))) ns) t
+    && disjoint_pools t ns
+  end.
+(* no pool uses the anomaly gate *)
+Definition no_gating (bc : list cfg) : bool := forallb (fun c => negb (gating c)) bc.
